@@ -23,7 +23,7 @@ RULE = ('k<=3 operands x every ordered other-axis selection (1..3 of 3 ids) per 
         'every pair of operands sharing a concatenated-axis id; non-trivial = every operand has a non-zero '
         'cell; distinct by (axis, selections, metadata config, entry point)')
 
-U = ['i1', 'i2', 'i3']
+U = ['i2', 'i10', 'i9']      # natural order (i2, i9, i10) differs from string order (i10, i2, i9)
 POOLS = [['a1', 'a2'], ['b1_a_much_longer_identifier'], ['c2', 'c1x', 'ü3']]   # later operands have wider ids
 
 
@@ -116,6 +116,27 @@ def check(case, acc, tmp):
                         clause = 'metadata' if 'metadata' in d else ('type' if d.startswith('type') else
                                                                      ('ids' if ' id' in d else 'values'))
                         acc.violation('concat:' + clause, '%r: %s' % (kw, d), dict(case, **kw))
+                        continue
+                    # the same content through the id-keyed accessors (the result's lookups must be its own)
+                    okid = True
+                    try:
+                        for ax_, ids_ in (('observation', exp.o), ('sample', exp.c)):
+                            rids = [str(i) for i in R.ids(ax_)]
+                            for i_ in ids_:
+                                if R.index(i_, ax_) != rids.index(i_) or not R.exists(i_, ax_):
+                                    okid = False
+                        for oi_, o_ in enumerate(exp.o):
+                            for si_, s_ in enumerate(exp.c):
+                                if float(R.get_value_by_ids(o_, s_)) != exp.m[oi_][si_]:
+                                    okid = False
+                            if [float(x) for x in R.data(o_, 'observation')] != \
+                                    [exp.m[oi_][exp.c.index(str(c_))] for c_ in R.ids()]:
+                                okid = False
+                    except Exception:
+                        okid = False
+                    if not okid:
+                        acc.violation('concat:id-keyed-access', 'index / get_value_by_ids / data(id) of the result '
+                                      'disagree with its own ids and matrix: %r' % (kw,), dict(case, **kw))
                         continue
                     acc.count('clause:result')
                     acc.count('entry:' + entry)
